@@ -55,327 +55,361 @@ def run(ck, F):
                   "explicit panic) in any function of the emitted module that the exchange reaches, its error conversions included")
     senders = H.sender_fn(F)
     ck.floor("R1", "functions calling RequestBuilder::send", len(senders), 1)
-    if len(senders) != 1:
-        if len(senders) > 1:
-            ck.violation("R1", "multiple-senders", "-", "more than one function of the helper module sends requests: "
-                         + ", ".join(b["path"] for b in senders))
+    if not senders:
         return
-    fb = senders[0]
-    # the sending function with the helper module's own functions inlined: sync helpers, directly called closures and awaited
-    # local async fns (their coroutine body runs in place of the poll); the restriction check stays a call (C07's anchor)
-    B = M.Body(I.Inliner(F.lib, stop=lambda p: "CheckRestrictions" in p or H.is_entry(F, p)).body(fb))
-    ck.count("helper functions inlined into the sender", len(B.fact.get("inlined", [])))
-    fn = fb["path"]
-    short = fn.replace(H.HELPERS_MOD + "::", "")
-    ck.count("blocks", len(B.reach))
-    ck.count("calls", len(B.calls()))
-    up = {n: i for i, n in enumerate(fb.get("upvars") or [])}
+    # every entry function that sends is judged on its own (two entries that share the private halves of the exchange — check and
+    # serialize, then post and read — are two senders, each of which makes exactly one request per call)
+    senders = sorted(senders, key=lambda b_: (0 if "client" in (b_.get("upvars") or []) else 1, b_["path"]))
 
-    def upvar_origin(operand, name, ident=H.FLOW_IDENTITY):
-        os_ = M.trace(B, operand, ident)
-        return bool(os_) and all(o.kind == "upvar" and o.name == name for o in os_)
+    def judge(ck, fb, first):
+        # the sending function with the helper module's own functions inlined: sync helpers, directly called closures and awaited
+        # local async fns (their coroutine body runs in place of the poll); the restriction check stays a call (C07's anchor)
+        B = M.Body(I.Inliner(F.lib, stop=lambda p: "CheckRestrictions" in p or H.is_entry(F, p)).body(fb))
+        ck.count("helper functions inlined into the sender", len(B.fact.get("inlined", [])))
+        fn = fb["path"]
+        short = fn.replace(H.HELPERS_MOD + "::", "")
+        ck.count("blocks", len(B.reach))
+        ck.count("calls", len(B.calls()))
+        up = {n: i for i, n in enumerate(fb.get("upvars") or [])}
 
-    # ---------------- R1
-    posts = B.calls_to("reqwest::Client::post")
-    sends = B.calls_to("reqwest::RequestBuilder::send")
-    for name, cs in (("Client::post", posts), ("RequestBuilder::send", sends)):
-        if len(cs) == 1:
-            bb, t = cs[0]
-            if B.in_cycle(bb):
-                ck.violation("R1", f"{name}:in-cycle", sp(B, bb), f"{name} is called inside a loop (retry): more than one request per call", fn=short)
-            else:
-                ck.ok("R1", f"{name}:once", sp(B, bb), f"single {name} call site, not in a cycle", fn=short)
-        else:
-            ck.violation("R1", f"{name}:count={len(cs)}", sp(B, cs[0][0]) if cs else fb["span"],
-                         f"{len(cs)} call sites of {name} (expected exactly one)", fn=short)
-    others = B.calls_to(*REQUEST_CTORS)
-    for bb, t in others:
-        ck.violation("R1", f"other-request:{M.Body.callee_decl(t)}", sp(B, bb),
-                     f"additional request constructor {M.Body.callee_decl(t)}", fn=short)
-    if not others:
-        ck.ok("R1", "no-other-request", fb["span"], "no other request constructor in the function", fn=short)
-    # calls into other local functions that themselves touch reqwest are not understood -> fail closed
-    for bb, t in B.calls():
-        callee = M.Body.callee(t) or ""
-        sub = F.lib.body(callee)
-        if sub is not None and sub.get("mir") and callee.startswith("model::helpers_content"):
-            SB = M.Body(sub)
-            if any("reqwest::" in (M.Body.callee_decl(x) or "") for _, x in SB.calls()) and not _is_status_gate(F, sub):
-                ck.undecided("R1", f"reqwest-in-callee:{callee}", sp(B, bb),
-                             f"{callee} performs reqwest calls of its own; inter-procedural request counting is not established", fn=short)
-    post = H.one(posts)
-    send = H.one(sends)
-    if post:
-        bb, t = post
-        if upvar_origin(t["args"][1], "url"):
-            ck.ok("R1", "url-param", sp(B, bb), "post URL is the `url` parameter", fn=short)
-        else:
-            ck.violation("R1", "url-param", sp(B, bb), "the URL passed to Client::post does not originate (only) from the `url` parameter: "
-                         + repr(M.trace(B, t["args"][1], H.FLOW_IDENTITY)), fn=short)
-        if upvar_origin(t["args"][0], "client"):
-            ck.ok("R1", "client-param", sp(B, bb), "post uses the `client` parameter", fn=short)
-        else:
-            ck.violation("R1", "client-param", sp(B, bb), "Client::post is not called on the `client` parameter", fn=short)
-    bodies = B.calls_to("reqwest::RequestBuilder::body")
-    if len(bodies) == 1:
-        bb, t = bodies[0]
-        src = H.origin_calls(B, t["args"][1])
-        ok = len(src) == 1 and src[0][1] == "yaserde::ser::to_string"
-        if ok:
-            ser = src[0][2].term
-            ok = upvar_origin(ser["args"][0], "req")
-        # the builder the body is set on is the one made by post (credentials may have been added to it before: the order of the
-        # builder steps does not matter for the request)
-        recv = H.origin_calls(B, t["args"][0], BUILDER_IDENT)
-        ok_recv = post is not None and bool(recv) and all(r[0] == post[0] for r in recv)
-        if ok and ok_recv:
-            ck.ok("R1", "body-provenance", sp(B, bb), "request body = yaserde::ser::to_string(&req) on the post builder", fn=short)
-        else:
-            ck.violation("R1", "body-provenance", sp(B, bb),
-                         "the request body is not exactly the yaserde serialization of the `req` parameter set on the post builder", fn=short)
-    else:
-        ck.violation("R1", f"body:count={len(bodies)}", fb["span"], f"{len(bodies)} RequestBuilder::body calls (expected one)", fn=short)
-    # the builder handed to send originates from the body()-builder, optionally through basic_auth
-    auths = B.calls_to("reqwest::RequestBuilder::basic_auth")
-    if send and len(bodies) == 1:
-        src = H.origin_calls(B, send[1]["args"][0], BUILDER_IDENT)
-        bad = [s for s in src if post is None or s[0] != post[0]]
-        through_body = bodies[0][0] in _steps_of(B, send[1]["args"][0])
-        if bad or not src or not through_body:
-            ck.violation("R1", "send-builder", sp(B, send[0]), "the builder that is sent does not come from post(url).body(..)[.basic_auth(..)]: "
-                         + ", ".join(str(s[1]) for s in bad), fn=short)
-        else:
-            ck.ok("R1", "send-builder", sp(B, send[0]), "sent builder = post(url).body(xml)[.basic_auth(..)]", fn=short)
-        # other builder methods that change the request (method, url) are not expected
-        for bb, t in B.calls():
-            d = M.Body.callee_decl(t) or ""
-            if d.startswith("reqwest::RequestBuilder::") and d.rsplit("::", 1)[1] not in (
-                    "body", "basic_auth", "send", "header", "headers", "timeout", "bearer_auth", "version"):
-                ck.violation("R1", f"builder-method:{d}", sp(B, bb), f"unexpected RequestBuilder method {d}", fn=short)
+        def upvar_origin(operand, name, ident=H.FLOW_IDENTITY):
+            os_ = M.trace(B, operand, ident)
+            return bool(os_) and all(o.kind == "upvar" and o.name == name for o in os_)
 
-    # ---------------- R2
-    if len(auths) != 1:
-        ck.violation("R2", f"basic_auth:count={len(auths)}", fb["span"], f"{len(auths)} basic_auth calls (expected exactly one)", fn=short)
-    elif send:
-        abb, at = auths[0]
-        # find the switch on discriminant(credentials)
-        some_targets = []
-        for i in sorted(B.reach):
-            t = B.term(i)
-            if t.get("k") != "switch":
-                continue
-            for o in M.trace(B, t["discr"]):
-                if o.kind == "discr":
-                    po = M.trace_place(B, o.place)
-                    if po and all(x.kind == "upvar" and x.name == "credentials" and not x.fields() for x in po):
-                        for v, tgt in t["targets"]:
-                            if v == 1:
-                                some_targets.append((i, tgt, t["otherwise"]))
-        if len(some_targets) != 1:
-            ck.violation("R2", "credentials-test", sp(B, abb),
-                         f"expected exactly one test of the `credentials` option, found {len(some_targets)}", fn=short)
-        else:
-            sw, some_bb, none_bb = some_targets[0]
-            ok = True
-            if not B.dominates(some_bb, abb):
-                ok = False
-                ck.violation("R2", "auth-outside-some", sp(B, abb),
-                             "basic_auth is not confined to the Some arm of the credentials test (credentials sent or invented when none configured)", fn=short)
-            if send[0] in B.reachable_from(some_bb, avoid=[abb]):
-                ok = False
-                ck.violation("R2", "some-without-auth", sp(B, sw),
-                             "the request can be sent on the Some(credentials) arm without basic_auth", fn=short)
-            if abb in B.reachable_from(none_bb):
-                ok = False
-                ck.violation("R2", "auth-on-none", sp(B, abb), "basic_auth is reachable from the None arm", fn=short)
-
-            def cred_field(operand, idx):
-                os_ = M.trace(B, operand, H.FLOW_IDENTITY)
-                return bool(os_) and all(o.kind == "upvar" and o.name == "credentials" and o.fields() == ["0", str(idx)] for o in os_)
-
-            u_ok = cred_field(at["args"][1], 0)
-            # password: Some(<field 1>)
-            p_ok = False
-            for o in M.trace(B, at["args"][2], H.FLOW_IDENTITY):
-                if o.kind == "aggregate" and o.rv.get("variant") == "Some":
-                    p_ok = cred_field(o.rv["ops"][0], 1)
-            if not (u_ok and p_ok):
-                ok = False
-                ck.violation("R2", "auth-operands", sp(B, abb),
-                             "basic_auth does not receive (credentials.0, Some(credentials.1)) in that order", fn=short)
-            # the authed builder must be the one reaching send on that arm
-            if abb not in _steps_of(B, send[1]["args"][0]):
-                ok = False
-                ck.violation("R2", "auth-dropped", sp(B, abb), "the builder returned by basic_auth does not reach send", fn=short)
-            if ok:
-                ck.ok("R2", "auth-iff-configured", sp(B, abb), "basic_auth(user, Some(pass)) exactly on the Some arm, result sent", fn=short)
-
-    # ---------------- R3 / R4
-    # what the function can return as its value: `Ok(payload)` aggregates, or the Result of a call handed on as it is (possibly
-    # through map_err); looked at through inlined helpers and awaited local async fns
-    ok_blocks = []      # (block, payload operand | None, producing call term | None)
-    ret_ident = H.FLOW_IDENTITY + ("Result::<T, E>::map_err",)
-
-    def classify_return(i, rv, spn):
-        if rv["k"] == "aggregate" and rv.get("variant") == "Ok":
-            ok_blocks.append((i, rv["ops"][0], None))
-            return
-        if rv["k"] == "aggregate" and rv.get("variant") == "Err":
-            return
-        if rv["k"] == "use":
-            for o in M.trace(B, rv["op"], ret_ident):
-                if o.kind == "aggregate" and o.rv.get("variant") == "Ok" and not o.proj:
-                    ok_blocks.append((o.bb, o.rv["ops"][0], None))
-                elif o.kind == "aggregate" and o.rv.get("variant") == "Err":
-                    continue
-                elif o.kind == "call" and (M.Body.callee_decl(o.term) or "").endswith("FromResidual::from_residual"):
-                    continue
-                elif o.kind == "call" and not o.proj:
-                    ok_blocks.append((o.bb, None, o.term))
+        # ---------------- R1
+        posts = B.calls_to("reqwest::Client::post")
+        sends = B.calls_to("reqwest::RequestBuilder::send")
+        for name, cs in (("Client::post", posts), ("RequestBuilder::send", sends)):
+            if len(cs) == 1:
+                bb, t = cs[0]
+                if B.in_cycle(bb):
+                    ck.violation("R1", f"{name}:in-cycle", sp(B, bb), f"{name} is called inside a loop (retry): more than one request per call", fn=short)
                 else:
-                    ck.undecided("R4", f"return-shape:{o.kind}", spn, f"a returned value of unrecognised origin: {o!r}", fn=short)
-            return
-        ck.undecided("R4", f"return-shape:{rv['k']}", spn, "return value assigned in an unrecognised way: " + pp.rvalue(rv), fn=short)
-    for i in sorted(B.reach):
-        for s in B.blocks[i]["stmts"]:
-            if s["k"] == "assign" and s["p"]["l"] == 0 and not s["p"].get("proj"):
-                classify_return(i, s["rv"], s.get("sp", "?"))
-        t = B.term(i)
-        if t.get("k") == "call" and t["dest"]["l"] == 0 and not t["dest"].get("proj"):
-            d = M.Body.callee_decl(t) or ""
-            if d.endswith("FromResidual::from_residual"):
-                continue
-            if d.endswith("Result::<T, E>::map_err"):
-                classify_return(i, {"k": "use", "op": t["args"][0]}, sp(B, i))
+                    ck.ok("R1", f"{name}:once", sp(B, bb), f"single {name} call site, not in a cycle", fn=short)
             else:
-                ok_blocks.append((i, None, t))
-    ok_blocks = list({(b_, id(p_), id(t_)): (b_, p_, t_) for b_, p_, t_ in ok_blocks}.values())
-    ck.floor("R3", "Ok return sites", len(ok_blocks), 1)
-    gates = B.calls_to("reqwest::Response::error_for_status_ref", "reqwest::Response::error_for_status")
-    # a private helper of the same module that is nothing but a status gate on its parameter counts as the gate
-    for hbb, ht in B.calls():
-        callee = M.Body.callee(ht) or ""
-        hb = F.lib.body(callee)
-        if hb is None or not hb.get("mir") or not callee.startswith("model::helpers_content") or hb.get("closure"):
-            continue
-        if _is_status_gate(F, hb):
-            gates.append((hbb, ht))
-    gate_conts = []
-    for bb, t in gates:
-        flow = M.result_flow(B, bb, t)
-        kinds = {k for k, _ in flow}
-        recv_ok = send is not None and any(s[0] == send[0] for s in H.origin_calls(B, t["args"][0]))
-        passed_on = bool(kinds) and kinds <= {"propagated", "returned", "mapped:propagated", "mapped:returned"}
-        if passed_on and recv_ok:
-            gate_conts.append(_gate_success(B, bb, t))
-        elif not passed_on:
-            ck.violation("R3", "gate-not-propagated", sp(B, bb),
-                         f"the result of the status check is {sorted(kinds)} instead of being propagated with `?`", fn=short)
+                ck.violation("R1", f"{name}:count={len(cs)}", sp(B, cs[0][0]) if cs else fb["span"],
+                             f"{len(cs)} call sites of {name} (expected exactly one)", fn=short)
+        others = B.calls_to(*REQUEST_CTORS)
+        for bb, t in others:
+            ck.violation("R1", f"other-request:{M.Body.callee_decl(t)}", sp(B, bb),
+                         f"additional request constructor {M.Body.callee_decl(t)}", fn=short)
+        if not others:
+            ck.ok("R1", "no-other-request", fb["span"], "no other request constructor in the function", fn=short)
+        # calls into other local functions that themselves touch reqwest are not understood -> fail closed
+        for bb, t in B.calls():
+            callee = M.Body.callee(t) or ""
+            sub = F.lib.body(callee)
+            if sub is not None and sub.get("mir") and callee.startswith("model::helpers_content"):
+                SB = M.Body(sub)
+                if any("reqwest::" in (M.Body.callee_decl(x) or "") for _, x in SB.calls()) and not _is_status_gate(F, sub):
+                    ck.undecided("R1", f"reqwest-in-callee:{callee}", sp(B, bb),
+                                 f"{callee} performs reqwest calls of its own; inter-procedural request counting is not established", fn=short)
+        post = H.one(posts)
+        send = H.one(sends)
+        if post:
+            bb, t = post
+            if upvar_origin(t["args"][1], "url"):
+                ck.ok("R1", "url-param", sp(B, bb), "post URL is the `url` parameter", fn=short)
+            else:
+                ck.violation("R1", "url-param", sp(B, bb), "the URL passed to Client::post does not originate (only) from the `url` parameter: "
+                             + repr(M.trace(B, t["args"][1], H.FLOW_IDENTITY)), fn=short)
+            made_here = [o for o in M.trace(B, t["args"][0], H.FLOW_IDENTITY)]
+            if upvar_origin(t["args"][0], "client"):
+                ck.ok("R1", "client-param", sp(B, bb), "post uses the `client` parameter", fn=short)
+            elif "client" not in up and made_here and all(o.kind == "call" and (M.Body.callee_decl(o.term) or "").endswith(
+                    ("reqwest::Client::new", "Client::default", "default::Default::default", "ClientBuilder::build")) for o in made_here):
+                ck.ok("R1", "client-param", sp(B, bb), "an entry without a `client` parameter posts with a client it makes itself", fn=short)
+            else:
+                ck.violation("R1", "client-param", sp(B, bb), "Client::post is not called on the `client` parameter", fn=short)
+        bodies = B.calls_to("reqwest::RequestBuilder::body")
+        if len(bodies) == 1:
+            bb, t = bodies[0]
+            src = H.origin_calls(B, t["args"][1])
+            ok = len(src) == 1 and src[0][1] == "yaserde::ser::to_string"
+            if ok:
+                ser = src[0][2].term
+                ok = upvar_origin(ser["args"][0], "req")
+            # the builder the body is set on is the one made by post (credentials may have been added to it before: the order of the
+            # builder steps does not matter for the request)
+            recv = H.origin_calls(B, t["args"][0], BUILDER_IDENT)
+            ok_recv = post is not None and bool(recv) and all(r[0] == post[0] for r in recv)
+            if ok and ok_recv:
+                ck.ok("R1", "body-provenance", sp(B, bb), "request body = yaserde::ser::to_string(&req) on the post builder", fn=short)
+            else:
+                ck.violation("R1", "body-provenance", sp(B, bb),
+                             "the request body is not exactly the yaserde serialization of the `req` parameter set on the post builder", fn=short)
         else:
-            ck.violation("R3", "gate-wrong-response", sp(B, bb), "the status check is not applied to the response returned by send", fn=short)
-    for obb, payload, rcall in ok_blocks:
-        if any(c is not None and B.dominates(c, obb) for c in gate_conts):
-            ck.ok("R3", "status-gate", sp(B, obb), "Ok return dominated by the success continuation of the propagated status check", fn=short)
-        else:
-            ck.violation("R3", "status-gate", sp(B, obb),
-                         "an Ok return is reachable without passing the (propagated) HTTP status check: 4xx/5xx replies can yield a value", fn=short)
-        # R4 payload provenance
-        if rcall is not None:
-            # the Result of a call is returned as it is: it must be the deserializer's
-            d = M.Body.callee_decl(rcall) or ""
-            good = d == "yaserde::de::from_str"
-            de = rcall
-            src = [(obb, d, None)]
-        else:
-            src = H.origin_calls(B, payload)
-            good = len(src) == 1 and src[0][1] == "yaserde::de::from_str"
-            de = src[0][2].term if good else None
-        if good:
-            tsrc = H.origin_calls(B, de["args"][0])
-            good_text = len(tsrc) == 1 and tsrc[0][1] in ("reqwest::Response::text", "reqwest::Response::text_with_charset")
-            resp_ok = False
-            if good_text:
-                rsrc = H.origin_calls(B, tsrc[0][2].term["args"][0])
-                resp_ok = send is not None and all(r[0] in ([send[0]] + [g[0] for g in gates]) for r in rsrc) and bool(rsrc)
-            # every fallible step must have been propagated and dominate the Ok
-            steps_ok = True
-            for (cbb, ct) in ([(src[0][0], de)] if rcall is None else []) + ([(tsrc[0][0], tsrc[0][2].term)] if good_text else []) + ([send] if send else []):
-                c = _await_aware_cont(B, cbb, ct)
-                if c is None or not B.dominates(c, obb):
-                    steps_ok = False
-            if good_text and resp_ok and steps_ok:
-                ck.ok("R4", "payload-provenance", sp(B, obb), "Ok(payload): payload = Ok of from_str(text().await?) of the sent response; all steps propagated", fn=short)
+            ck.violation("R1", f"body:count={len(bodies)}", fb["span"], f"{len(bodies)} RequestBuilder::body calls (expected one)", fn=short)
+        # the builder handed to send originates from the body()-builder, optionally through basic_auth
+        auths = B.calls_to("reqwest::RequestBuilder::basic_auth")
+        if send and len(bodies) == 1:
+            src = H.origin_calls(B, send[1]["args"][0], BUILDER_IDENT)
+            bad = [s for s in src if post is None or s[0] != post[0]]
+            through_body = bodies[0][0] in _steps_of(B, send[1]["args"][0])
+            if bad or not src or not through_body:
+                ck.violation("R1", "send-builder", sp(B, send[0]), "the builder that is sent does not come from post(url).body(..)[.basic_auth(..)]: "
+                             + ", ".join(str(s[1]) for s in bad), fn=short)
+            else:
+                ck.ok("R1", "send-builder", sp(B, send[0]), "sent builder = post(url).body(xml)[.basic_auth(..)]", fn=short)
+            # other builder methods that change the request (method, url) are not expected
+            for bb, t in B.calls():
+                d = M.Body.callee_decl(t) or ""
+                if d.startswith("reqwest::RequestBuilder::") and d.rsplit("::", 1)[1] not in (
+                        "body", "basic_auth", "send", "header", "headers", "timeout", "bearer_auth", "version"):
+                    ck.violation("R1", f"builder-method:{d}", sp(B, bb), f"unexpected RequestBuilder method {d}", fn=short)
+
+        # ---------------- R2
+        if len(auths) != 1:
+            ck.violation("R2", f"basic_auth:count={len(auths)}", fb["span"], f"{len(auths)} basic_auth calls (expected exactly one)", fn=short)
+        elif send:
+            abb, at = auths[0]
+            # find the switch on discriminant(credentials)
+            some_targets = []
+            for i in sorted(B.reach):
+                t = B.term(i)
+                if t.get("k") != "switch":
+                    continue
+                for o in M.trace(B, t["discr"]):
+                    if o.kind == "discr":
+                        po = M.trace_place(B, o.place)
+                        if po and all(x.kind == "upvar" and x.name == "credentials" and not x.fields() for x in po):
+                            for v, tgt in t["targets"]:
+                                if v == 1:
+                                    some_targets.append((i, tgt, t["otherwise"]))
+            if len(some_targets) != 1:
+                ck.violation("R2", "credentials-test", sp(B, abb),
+                             f"expected exactly one test of the `credentials` option, found {len(some_targets)}", fn=short)
+            else:
+                sw, some_bb, none_bb = some_targets[0]
+                ok = True
+                if not B.dominates(some_bb, abb):
+                    ok = False
+                    ck.violation("R2", "auth-outside-some", sp(B, abb),
+                                 "basic_auth is not confined to the Some arm of the credentials test (credentials sent or invented when none configured)", fn=short)
+                if send[0] in B.reachable_from(some_bb, avoid=[abb]):
+                    ok = False
+                    ck.violation("R2", "some-without-auth", sp(B, sw),
+                                 "the request can be sent on the Some(credentials) arm without basic_auth", fn=short)
+                if abb in B.reachable_from(none_bb):
+                    ok = False
+                    ck.violation("R2", "auth-on-none", sp(B, abb), "basic_auth is reachable from the None arm", fn=short)
+
+                def cred_field(operand, idx):
+                    os_ = M.trace(B, operand, H.FLOW_IDENTITY)
+                    return bool(os_) and all(o.kind == "upvar" and o.name == "credentials" and o.fields() == ["0", str(idx)] for o in os_)
+
+                u_ok = cred_field(at["args"][1], 0)
+                # password: Some(<field 1>)
+                p_ok = False
+                for o in M.trace(B, at["args"][2], H.FLOW_IDENTITY):
+                    if o.kind == "aggregate" and o.rv.get("variant") == "Some":
+                        p_ok = cred_field(o.rv["ops"][0], 1)
+                if not (u_ok and p_ok):
+                    ok = False
+                    ck.violation("R2", "auth-operands", sp(B, abb),
+                                 "basic_auth does not receive (credentials.0, Some(credentials.1)) in that order", fn=short)
+                # the authed builder must be the one reaching send on that arm
+                if abb not in _steps_of(B, send[1]["args"][0]):
+                    ok = False
+                    ck.violation("R2", "auth-dropped", sp(B, abb), "the builder returned by basic_auth does not reach send", fn=short)
+                if ok:
+                    ck.ok("R2", "auth-iff-configured", sp(B, abb), "basic_auth(user, Some(pass)) exactly on the Some arm, result sent", fn=short)
+
+        # ---------------- R3 / R4
+        # what the function can return as its value: `Ok(payload)` aggregates, or the Result of a call handed on as it is (possibly
+        # through map_err); looked at through inlined helpers and awaited local async fns
+        ok_blocks = []      # (block, payload operand | None, producing call term | None)
+        ret_ident = H.FLOW_IDENTITY + ("Result::<T, E>::map_err",)
+
+        def classify_return(i, rv, spn):
+            if rv["k"] == "aggregate" and rv.get("variant") == "Ok":
+                ok_blocks.append((i, rv["ops"][0], None))
+                return
+            if rv["k"] == "aggregate" and rv.get("variant") == "Err":
+                return
+            if rv["k"] == "use":
+                for o in M.trace(B, rv["op"], ret_ident):
+                    if o.kind == "aggregate" and o.rv.get("variant") == "Ok" and not o.proj:
+                        ok_blocks.append((o.bb, o.rv["ops"][0], None))
+                    elif o.kind == "aggregate" and o.rv.get("variant") == "Err":
+                        continue
+                    elif o.kind == "call" and (M.Body.callee_decl(o.term) or "").endswith("FromResidual::from_residual"):
+                        continue
+                    elif o.kind == "call" and not o.proj:
+                        ok_blocks.append((o.bb, None, o.term))
+                    else:
+                        ck.undecided("R4", f"return-shape:{o.kind}", spn, f"a returned value of unrecognised origin: {o!r}", fn=short)
+                return
+            ck.undecided("R4", f"return-shape:{rv['k']}", spn, "return value assigned in an unrecognised way: " + pp.rvalue(rv), fn=short)
+        for i in sorted(B.reach):
+            for s in B.blocks[i]["stmts"]:
+                if s["k"] == "assign" and s["p"]["l"] == 0 and not s["p"].get("proj"):
+                    classify_return(i, s["rv"], s.get("sp", "?"))
+            t = B.term(i)
+            if t.get("k") == "call" and t["dest"]["l"] == 0 and not t["dest"].get("proj"):
+                d = M.Body.callee_decl(t) or ""
+                if d.endswith("FromResidual::from_residual"):
+                    continue
+                if d.endswith("Result::<T, E>::map_err"):
+                    classify_return(i, {"k": "use", "op": t["args"][0]}, sp(B, i))
+                else:
+                    ok_blocks.append((i, None, t))
+        ok_blocks = list({(b_, id(p_), id(t_)): (b_, p_, t_) for b_, p_, t_ in ok_blocks}.values())
+        ck.floor("R3", "Ok return sites", len(ok_blocks), 1)
+        gates = B.calls_to("reqwest::Response::error_for_status_ref", "reqwest::Response::error_for_status")
+        # a private helper of the same module that is nothing but a status gate on its parameter counts as the gate
+        for hbb, ht in B.calls():
+            callee = M.Body.callee(ht) or ""
+            hb = F.lib.body(callee)
+            if hb is None or not hb.get("mir") or not callee.startswith("model::helpers_content") or hb.get("closure"):
+                continue
+            if _is_status_gate(F, hb):
+                gates.append((hbb, ht))
+        gate_conts = []
+        for bb, t in gates:
+            flow = M.result_flow(B, bb, t)
+            kinds = {k for k, _ in flow}
+            recv_ok = send is not None and any(s[0] == send[0] for s in H.origin_calls(B, t["args"][0]))
+            passed_on = bool(kinds) and kinds <= {"propagated", "returned", "mapped:propagated", "mapped:returned"}
+            if passed_on and recv_ok:
+                gate_conts.append(_gate_success(B, bb, t))
+            elif not passed_on:
+                ck.violation("R3", "gate-not-propagated", sp(B, bb),
+                             f"the result of the status check is {sorted(kinds)} instead of being propagated with `?`", fn=short)
+            else:
+                ck.violation("R3", "gate-wrong-response", sp(B, bb), "the status check is not applied to the response returned by send", fn=short)
+        for obb, payload, rcall in ok_blocks:
+            if any(c is not None and B.dominates(c, obb) for c in gate_conts):
+                ck.ok("R3", "status-gate", sp(B, obb), "Ok return dominated by the success continuation of the propagated status check", fn=short)
+            else:
+                ck.violation("R3", "status-gate", sp(B, obb),
+                             "an Ok return is reachable without passing the (propagated) HTTP status check: 4xx/5xx replies can yield a value", fn=short)
+            # R4 payload provenance
+            if rcall is not None:
+                # the Result of a call is returned as it is: it must be the deserializer's
+                d = M.Body.callee_decl(rcall) or ""
+                good = d == "yaserde::de::from_str"
+                de = rcall
+                src = [(obb, d, None)]
+            else:
+                src = H.origin_calls(B, payload)
+                good = len(src) == 1 and src[0][1] == "yaserde::de::from_str"
+                de = src[0][2].term if good else None
+            if good:
+                tsrc = H.origin_calls(B, de["args"][0])
+                good_text = len(tsrc) == 1 and tsrc[0][1] in ("reqwest::Response::text", "reqwest::Response::text_with_charset")
+                resp_ok = False
+                if good_text:
+                    rsrc = H.origin_calls(B, tsrc[0][2].term["args"][0])
+                    resp_ok = send is not None and all(r[0] in ([send[0]] + [g[0] for g in gates]) for r in rsrc) and bool(rsrc)
+                # every fallible step must have been propagated and dominate the Ok
+                steps_ok = True
+                for (cbb, ct) in ([(src[0][0], de)] if rcall is None else []) + ([(tsrc[0][0], tsrc[0][2].term)] if good_text else []) + ([send] if send else []):
+                    c = _await_aware_cont(B, cbb, ct)
+                    if c is None or not B.dominates(c, obb):
+                        steps_ok = False
+                if good_text and resp_ok and steps_ok:
+                    ck.ok("R4", "payload-provenance", sp(B, obb), "Ok(payload): payload = Ok of from_str(text().await?) of the sent response; all steps propagated", fn=short)
+                else:
+                    ck.violation("R4", "payload-provenance", sp(B, obb),
+                                 f"the Ok payload is parsed from something other than the awaited text of the sent response, or a fallible step is not "
+                                 f"propagated before the Ok (text={good_text}, response={resp_ok}, propagated={steps_ok})", fn=short)
             else:
                 ck.violation("R4", "payload-provenance", sp(B, obb),
-                             f"the Ok payload is parsed from something other than the awaited text of the sent response, or a fallible step is not "
-                             f"propagated before the Ok (text={good_text}, response={resp_ok}, propagated={steps_ok})", fn=short)
-        else:
-            ck.violation("R4", "payload-provenance", sp(B, obb),
-                         "the Ok payload does not originate (only) from yaserde::de::from_str: " + ", ".join(str(s[1]) for s in src), fn=short)
-    # once the request was sent, the reply is judged by its status and by the deserializer, nothing else: an error that the helper
-    # builds by its own judgement of the reply (a text search in the body, a header test, ..) turns valid replies into errors
-    if send is not None:
-        after_send = B.reachable_from(send[0])
-        own_errs = []
-        for i in sorted(after_send):
-            if i == send[0]:
-                continue
-            for st_ in B.blocks[i]["stmts"]:
-                if st_["k"] == "assign" and st_["rv"]["k"] == "aggregate" and str(st_["rv"].get("adt", "")).endswith("result::Result") \
-                        and st_["rv"].get("variant") == "Err" and not B.blocks[i].get("from_std"):
-                    # (the Err of a `?` is made by from_residual / map_err, not by an aggregate in this body)
-                    tl = st_["p"]["l"]
-                    if _err_of_a_step(B, st_["rv"]):
-                        continue      # the error of a step, re-wrapped by hand (`Err(e) => Err(SoapError::Http(e))`)
-                    if tl == 0 or B.locals[tl].get("inl_ret") or any(
-                            s2["k"] == "assign" and s2["p"]["l"] == 0 and s2["rv"]["k"] == "use" and s2["rv"]["op"].get("p", {}).get("l") == tl
-                            for j in sorted(after_send) for s2 in B.blocks[j]["stmts"]):
-                        own_errs.append((i, st_))
-        seen_sp = set()
-        for i, st_ in own_errs:
-            sp_ = st_.get("sp") or sp(B, i)
-            if sp_ in seen_sp:
-                continue
-            seen_sp.add(sp_)
-            ck.violation("R4", "reply-judged-by-helper", sp_,
-                         "after the request was sent the helper returns an Err that it builds itself (not the error of the status check, of "
-                         "reading the body or of the deserializer): a 2xx reply holding the response envelope can be reported as a failure", fn=short)
-        if not own_errs:
-            ck.ok("R4", "reply-judged-by-status-and-deserializer", fb["span"], "after the send, every Err comes from the transport, the status check or the "
-                  "deserializer", fn=short)
-    bad = [(bb, t) for bb, t in B.calls() if any((M.Body.callee_decl(t) or "").endswith(x) for x in DEFAULTING)]
-    for bb, t in bad:
-        ck.violation("R4", f"defaulting:{M.Body.callee_decl(t)}", sp(B, bb),
-                     f"{M.Body.callee_decl(t)} in the exchange function: a failed step can be turned into a value or a panic", fn=short)
-    if not bad:
-        ck.ok("R4", "no-defaulting", fb["span"], "no unwrap_or*/ok()/default()/unwrap on the exchange path", fn=short)
-    # ---- R5: a failed exchange is reported as an error — so nothing the exchange reaches inside the emitted module may panic
-    # instead (an index / slice by byte position, unwrap, arithmetic that can overflow, ..): the error path is code too
-    from engine.rulekit import scans
-    g = scans.call_graph(F.lib)
-    roots = [b_["path"] for b_ in senders] + H.entry_fns(F) + [e_ + "::{closure#0}" for e_ in H.entry_fns(F)]
-    reach = {p_ for p_ in scans.reachable(g, roots) if "helpers_content" in p_}
-    # conversions into the module's error type run on the `?` of the exchange
-    reach |= {b_["path"] for b_ in F.lib.bodies if b_["path"].startswith("<model::helpers_content::error::")
-              and (" as std::convert::From<" in b_["path"] or " as std::fmt::Display>" in b_["path"])}
-    reach |= {p_ for p_ in scans.reachable(g, sorted(reach)) if "helpers_content" in p_}
-    reach = {p_ for p_ in reach if "CheckRestrictions" not in p_ and "::restrictions::" not in p_ and "multi_ref" not in p_}
-    ck.count("R5:functions of the emitted module reachable from the exchange", len(reach))
-    hits = [h for h in scans.scan_panics(F.lib) if h[0] in reach]
-    for (pfn, site, what, n, pbb) in hits:
-        ck.violation("R5", f"panic:{pfn.replace('model::helpers_content::', '')}:{what.rsplit('::', 1)[-1]}#{n}", site,
-                     f"{pfn} (reached from the exchange) can panic here ({what}): for some reply or failure the call neither returns the "
-                     f"response nor an error", fn=short)
-    if not hits:
-        ck.ok("R5", "no-panic", fb["span"], f"none of the {len(reach)} functions of the emitted module that the exchange reaches holds a panic-family "
-              f"operation (index/slice, unwrap/expect, overflow assertion, explicit panic)", fn=short)
-    ck.floor("R5", "functions of the emitted module reachable from the exchange", len(reach), 3)
-    # "to the service address": the helper posts to the `url` it is handed (R1); what the generated method hands it is the location
-    # written into the client's constructor, and that is the address of the port the client's binding belongs to (decided by C05.R5)
-    if not getattr(ck, "rule_", None):       # (not when this run is itself a part of C05's)
-        from rules import c05 as C05
-        from rules import c04 as C04
-        C05.run(C04._Sub(ck, "R1", lambda key: key == "location" or key.startswith("location"), only_rules=("R5",)), F)
+                             "the Ok payload does not originate (only) from yaserde::de::from_str: " + ", ".join(str(s[1]) for s in src), fn=short)
+        # once the request was sent, the reply is judged by its status and by the deserializer, nothing else: an error that the helper
+        # builds by its own judgement of the reply (a text search in the body, a header test, ..) turns valid replies into errors
+        if send is not None:
+            after_send = B.reachable_from(send[0])
+            own_errs = []
+            for i in sorted(after_send):
+                if i == send[0]:
+                    continue
+                for st_ in B.blocks[i]["stmts"]:
+                    if st_["k"] == "assign" and st_["rv"]["k"] == "aggregate" and str(st_["rv"].get("adt", "")).endswith("result::Result") \
+                            and st_["rv"].get("variant") == "Err" and not B.blocks[i].get("from_std"):
+                        # (the Err of a `?` is made by from_residual / map_err, not by an aggregate in this body)
+                        tl = st_["p"]["l"]
+                        if _err_of_a_step(B, st_["rv"]):
+                            continue      # the error of a step, re-wrapped by hand (`Err(e) => Err(SoapError::Http(e))`)
+                        if tl == 0 or B.locals[tl].get("inl_ret") or any(
+                                s2["k"] == "assign" and s2["p"]["l"] == 0 and s2["rv"]["k"] == "use" and s2["rv"]["op"].get("p", {}).get("l") == tl
+                                for j in sorted(after_send) for s2 in B.blocks[j]["stmts"]):
+                            own_errs.append((i, st_))
+            seen_sp = set()
+            for i, st_ in own_errs:
+                sp_ = st_.get("sp") or sp(B, i)
+                if sp_ in seen_sp:
+                    continue
+                seen_sp.add(sp_)
+                ck.violation("R4", "reply-judged-by-helper", sp_,
+                             "after the request was sent the helper returns an Err that it builds itself (not the error of the status check, of "
+                             "reading the body or of the deserializer): a 2xx reply holding the response envelope can be reported as a failure", fn=short)
+            if not own_errs:
+                ck.ok("R4", "reply-judged-by-status-and-deserializer", fb["span"], "after the send, every Err comes from the transport, the status check or the "
+                      "deserializer", fn=short)
+        bad = [(bb, t) for bb, t in B.calls() if any((M.Body.callee_decl(t) or "").endswith(x) for x in DEFAULTING)]
+        for bb, t in bad:
+            ck.violation("R4", f"defaulting:{M.Body.callee_decl(t)}", sp(B, bb),
+                         f"{M.Body.callee_decl(t)} in the exchange function: a failed step can be turned into a value or a panic", fn=short)
+        if not bad:
+            ck.ok("R4", "no-defaulting", fb["span"], "no unwrap_or*/ok()/default()/unwrap on the exchange path", fn=short)
+        if not first:
+            return      # (what follows is about the module as a whole: once)
+        # ---- R5: a failed exchange is reported as an error — so nothing the exchange reaches inside the emitted module may panic
+        # instead (an index / slice by byte position, unwrap, arithmetic that can overflow, ..): the error path is code too
+        from engine.rulekit import scans
+        g = scans.call_graph(F.lib)
+        roots = [b_["path"] for b_ in senders] + H.entry_fns(F) + [e_ + "::{closure#0}" for e_ in H.entry_fns(F)]
+        reach = {p_ for p_ in scans.reachable(g, roots) if "helpers_content" in p_}
+        # conversions into the module's error type run on the `?` of the exchange
+        reach |= {b_["path"] for b_ in F.lib.bodies if b_["path"].startswith("<model::helpers_content::error::")
+                  and (" as std::convert::From<" in b_["path"] or " as std::fmt::Display>" in b_["path"])}
+        reach |= {p_ for p_ in scans.reachable(g, sorted(reach)) if "helpers_content" in p_}
+        reach = {p_ for p_ in reach if "CheckRestrictions" not in p_ and "::restrictions::" not in p_ and "multi_ref" not in p_}
+        ck.count("R5:functions of the emitted module reachable from the exchange", len(reach))
+        hits = [h for h in scans.scan_panics(F.lib) if h[0] in reach]
+        for (pfn, site, what, n, pbb) in hits:
+            ck.violation("R5", f"panic:{pfn.replace('model::helpers_content::', '')}:{what.rsplit('::', 1)[-1]}#{n}", site,
+                         f"{pfn} (reached from the exchange) can panic here ({what}): for some reply or failure the call neither returns the "
+                         f"response nor an error", fn=short)
+        if not hits:
+            ck.ok("R5", "no-panic", fb["span"], f"none of the {len(reach)} functions of the emitted module that the exchange reaches holds a panic-family "
+                  f"operation (index/slice, unwrap/expect, overflow assertion, explicit panic)", fn=short)
+        ck.floor("R5", "functions of the emitted module reachable from the exchange", len(reach), 3)
+        # "to the service address": the helper posts to the `url` it is handed (R1); what the generated method hands it is the location
+        # written into the client's constructor, and that is the address of the port the client's binding belongs to (decided by C05.R5)
+        if not getattr(ck, "rule_", None):       # (not when this run is itself a part of C05's)
+            from rules import c05 as C05
+            from rules import c04 as C04
+            C05.run(C04._Sub(ck, "R1", lambda key: key == "location" or key.startswith("location"), only_rules=("R5",)), F)
+
+
+    for i_, fb_ in enumerate(senders):
+        judge(ck if i_ == 0 else _Keyed(ck, "@" + fb_["path"].replace(H.HELPERS_MOD + "::", "").split("::{closure", 1)[0]), fb_, i_ == 0)
+
+
+class _Keyed:
+    """the same obligations for a further sending entry function: keys carry the entry's name"""
+
+    def __init__(self, ck, suffix):
+        self.ck, self.suffix = ck, suffix
+        self.rule_ = getattr(ck, "rule_", None)
+
+    def count(self, name, n=1):
+        self.ck.count(name + self.suffix, n)
+
+    def ok(self, rule, desc, *a, **kw):
+        self.ck.ok(rule, desc + self.suffix, *a, **kw)
+
+    def violation(self, rule, desc, *a, **kw):
+        self.ck.violation(rule, desc + self.suffix, *a, **kw)
+
+    def undecided(self, rule, desc, *a, **kw):
+        self.ck.undecided(rule, desc + self.suffix, *a, **kw)
+
+    def floor(self, rule, name, count, floor, site="-"):
+        self.ck.floor(rule, name + self.suffix, count, floor, site)
 
 
 STEP_ERRORS = ("reqwest::Response::error_for_status_ref", "reqwest::Response::error_for_status", "reqwest::Response::text",
